@@ -1,2 +1,230 @@
-(* Props/C11.v — property C11 (under construction). *)
-From PV Require Import Base.Bytes Base.Outcome Gen.GenCodecsC11 Model.Base58 Model.Bech32.
+(* Props/C11.v — property C11: Base58, Base58Check and Bech32/Bech32m codecs are exact and detect corruption.
+   Only statements; every proof is `exact <lemma>`.  Python str = list of code points (pystr), bytes = list byte,
+   int = Z.  `btc_*` = the Base58 functions instantiated with the alphabet REGENERATED from /repo; the Bech32
+   functions use the regenerated CHARSET, generator constants and BECH32M_CONST (Gen/GenCodecsC11.v). *)
+From PV Require Import Base.Bytes Base.Outcome Gen.GenCodecsC11 Model.Base58 Model.Bech32
+  Proofs.Base58P Proofs.Bech32P Proofs.Bech32StrP Proofs.Bech32DetectP Proofs.Bech32DetectStrP.
+Local Open Scope Z_scope.
+
+(* ================================ Base58 ================================================================== *)
+(* a2b_base58 (b2a_base58 s) = s for EVERY byte string (any length, any number of leading zero bytes); the
+   encoder neither raises nor runs out of fuel *)
+Theorem C11_b58_decode_encode : forall s : bytes,
+  exists t, btc_b2a_base58 s = Ret t /\ btc_a2b_base58 t = Ret s.
+Proof. exact b58_decode_encode. Qed.
+Print Assumptions C11_b58_decode_encode.
+
+(* b2a_base58 (a2b_base58 t) = t for EVERY string over the alphabet (so the accepted form is unique) *)
+Theorem C11_b58_encode_decode : forall t : pystr, Forall b58_char t ->
+  exists s, btc_a2b_base58 t = Ret s /\ btc_b2a_base58 s = Ret t.
+Proof. exact b58_encode_decode. Qed.
+Print Assumptions C11_b58_encode_decode.
+
+(* EVERY other str (a character outside the alphabet: non-ASCII text and lone surrogates included) raises
+   EncodingError, nothing else *)
+Theorem C11_b58_rejects_non_alphabet : forall t : pystr, ~ Forall b58_char t ->
+  btc_a2b_base58 t = Raise E_ENCODING.
+Proof. exact b58_rejects_non_alphabet. Qed.
+Print Assumptions C11_b58_rejects_non_alphabet.
+
+Example C11_b58_examples :
+  btc_b2a_base58 [x00; x00; x01] = Ret [49; 49; 50]%N /\ btc_a2b_base58 [49; 49; 50]%N = Ret [x00; x00; x01]
+  /\ btc_a2b_base58 [48]%N = Raise E_ENCODING /\ btc_a2b_base58 [55296]%N = Raise E_ENCODING.
+Proof. vm_compute. repeat split. Qed.
+
+(* ================================ Base58Check ============================================================ *)
+(* for ANY hash function whose digests have at least four bytes: encode then decode is the identity, through
+   all three entry points *)
+Theorem C11_b58check_roundtrip : forall (H : bytes -> bytes), (forall x, (4 <= length (H x))%nat) ->
+  forall d : bytes, exists t,
+    btc_b2a_hashed_base58 H d = Ret t /\ btc_a2b_hashed_base58 H t = Ret d
+    /\ btc_is_hashed_base58_valid H t = Ret true /\ btc_parse_b58_double_sha256 H t = Some d.
+Proof. exact b58check_roundtrip. Qed.
+Print Assumptions C11_b58check_roundtrip.
+
+(* for ANY hash function: a string whose decoded last four bytes are not the first four bytes of the hash of
+   the rest is rejected (EncodingError / False / None) *)
+Theorem C11_b58check_rejects_bad_checksum : forall (H : bytes -> bytes) (t : pystr) (data : bytes),
+  btc_a2b_base58 t = Ret data -> firstn 4 (H (but_last4 data)) <> last4 data ->
+  btc_a2b_hashed_base58 H t = Raise E_ENCODING /\ btc_is_hashed_base58_valid H t = Ret false
+  /\ btc_parse_b58_double_sha256 H t = None.
+Proof. exact b58check_rejects_bad_checksum. Qed.
+Print Assumptions C11_b58check_rejects_bad_checksum.
+
+(* ... in particular every payload followed by four bytes that are not its checksum *)
+Theorem C11_b58check_wrong_checksum_rejected : forall (H : bytes -> bytes) (d c : bytes),
+  length c = 4%nat -> c <> firstn 4 (H d) ->
+  exists t, btc_b2a_base58 (d ++ c) = Ret t /\ btc_a2b_hashed_base58 H t = Raise E_ENCODING
+            /\ btc_is_hashed_base58_valid H t = Ret false.
+Proof. exact b58check_wrong_checksum_rejected. Qed.
+Print Assumptions C11_b58check_wrong_checksum_rejected.
+
+(* acceptance is exactly "decodes, and the last four bytes are the checksum of the rest" *)
+Theorem C11_b58check_accepts_iff : forall (H : bytes -> bytes) (t : pystr) (body : bytes),
+  btc_a2b_hashed_base58 H t = Ret body <->
+  exists data, btc_a2b_base58 t = Ret data /\ body = but_last4 data /\ firstn 4 (H body) = last4 data.
+Proof. exact b58check_accepts_iff. Qed.
+Print Assumptions C11_b58check_accepts_iff.
+
+(* ================================ convertbits ============================================================== *)
+(* 8 -> 5 with padding then 5 -> 8 strict is the identity on every byte string; the output has ceil(8n/5) symbols *)
+Theorem C11_convertbits_roundtrip : forall data, bytes8 data ->
+  exists out, convertbits data 8 5 true = Some out /\ syms5 out
+              /\ Z.of_nat (length out) = (8 * Z.of_nat (length data) + 4) / 5
+              /\ convertbits out 5 8 false = Some data.
+Proof. exact convertbits_roundtrip_8_5_8. Qed.
+Print Assumptions C11_convertbits_roundtrip.
+
+(* whatever 5 -> 8 strict accepts, 8 -> 5 maps back to it: the accepted symbol string of a program is unique *)
+Theorem C11_convertbits_strict_inverse : forall syms data, convertbits syms 5 8 false = Some data ->
+  bytes8 data /\ convertbits data 8 5 true = Some syms.
+Proof. exact convertbits_roundtrip_5_8_5. Qed.
+Print Assumptions C11_convertbits_strict_inverse.
+
+(* 5 -> 8 strict rejects exactly: five or more left-over bits, or non-zero left-over bits *)
+Theorem C11_convertbits_strict_accepts_iff : forall syms, syms5 syms ->
+  let e := (5 * Z.of_nat (length syms)) mod 8 in
+  match convertbits syms 5 8 false with
+  | None => 5 <= e \/ valfrom 32 0 syms mod 2 ^ e <> 0
+  | Some out => e < 5 /\ valfrom 32 0 syms mod 2 ^ e = 0 /\ bytes8 out
+                /\ 8 * Z.of_nat (length out) = 5 * Z.of_nat (length syms) - e
+                /\ valfrom 256 0 out = valfrom 32 0 syms / 2 ^ e
+  end.
+Proof. exact convertbits_5_8. Qed.
+Print Assumptions C11_convertbits_strict_accepts_iff.
+
+(* the inner while loop of the model never runs out of fuel (positive widths) *)
+Theorem C11_convertbits_total : forall f t pad data, 0 < f -> 0 < t ->
+  exists r, convertbits_o f t pad data = Ret r.
+Proof. exact convertbits_o_total. Qed.
+Print Assumptions C11_convertbits_total.
+
+(* ================================ Bech32 / Bech32m ========================================================= *)
+(* the checksum closes: whatever was created verifies under the same constant *)
+Theorem C11_checksum_create_verify : forall hrp data spec, printable hrp -> syms5 data ->
+  bech32_verify_checksum hrp (data ++ bech32_create_checksum hrp data spec) = Some (spec_norm spec).
+Proof. exact verify_created. Qed.
+Print Assumptions C11_checksum_create_verify.
+
+(* bech32_decode (bech32_encode hrp data spec) = (hrp, data, spec): hrp printable, not upper case, non-empty *)
+Theorem C11_bech32_encode_decode_low : forall hrp data spec max_length,
+  hrp_ok hrp -> syms5 data -> Z.of_nat (length hrp + 1 + length data + 6) <= max_length ->
+  exists s, bech32_encode hrp data spec = Ret s
+            /\ length s = (length hrp + 1 + length data + 6)%nat
+            /\ bech32_decode_max s max_length = Some (hrp, data, spec_norm spec).
+Proof. exact bech32_encode_decode_low. Qed.
+Print Assumptions C11_bech32_encode_decode_low.
+
+(* segwit addresses: for EVERY human-readable part, witness version 0..16 and program BIP173/BIP350 allow
+   (triple_ok) encode succeeds and decode returns exactly (version, program) *)
+Theorem C11_bech32_encode_decode : forall hrp ver prog, triple_ok hrp ver prog ->
+  exists s, encode hrp ver prog = Ret (Some s) /\ decode hrp s = Some (ver, prog)
+            /\ Z.of_nat (length s) = Z.of_nat (length hrp) + 8 + (8 * Z.of_nat (length prog) + 4) / 5.
+Proof. exact segwit_encode_decode. Qed.
+Print Assumptions C11_bech32_encode_decode.
+
+Example C11_triple_ok_example : triple_ok [98; 99]%N 1 (repeat 7 32).
+Proof.
+  split; [|lia|repeat constructor; lia|cbn; lia|lia|vm_compute; congruence].
+  split; [repeat constructor; lia|split; [repeat constructor|cbn; lia]].
+Qed.
+
+(* decode accepts EXACTLY: bech32_decode succeeds with the caller's hrp, version <= 16, strictly convertible
+   program of 2..40 bytes (20 or 32 for v0), and the checksum constant that belongs to the version *)
+Theorem C11_segwit_decode_accepts_iff : forall hrp s ver prog,
+  decode hrp s = Some (ver, prog) <->
+  exists data spec, bech32_decode s = Some (hrp, ver :: data, spec)
+    /\ convertbits data 5 8 false = Some prog
+    /\ (2 <= length prog <= 40)%nat /\ ver <= 16
+    /\ (ver = 0 -> length prog = 20%nat \/ length prog = 32%nat)
+    /\ spec = expected_spec ver.
+Proof. exact segwit_decode_accepts_iff. Qed.
+Print Assumptions C11_segwit_decode_accepts_iff.
+
+Theorem C11_mixed_case_rejected : forall s max_length cu cl,
+  In cu s -> is_upper cu = true -> In cl s -> is_lower cl = true -> bech32_decode_max s max_length = None.
+Proof. exact mixed_case_rejected. Qed.
+Print Assumptions C11_mixed_case_rejected.
+
+Theorem C11_wrong_constant_rejected : forall hrp s h ver data spec,
+  bech32_decode s = Some (h, ver :: data, spec) -> spec <> expected_spec ver -> decode hrp s = None.
+Proof. exact wrong_constant_rejected. Qed.
+Print Assumptions C11_wrong_constant_rejected.
+
+(* constructive form: the encoder's payload under the OTHER constant is a well-formed Bech32(m) string that the
+   segwit decoder refuses *)
+Theorem C11_other_constant_refused : forall hrp ver prog spec, triple_ok hrp ver prog ->
+  spec_norm spec <> expected_spec ver ->
+  exists conv s, convertbits prog 8 5 true = Some conv /\ bech32_encode hrp (ver :: conv) spec = Ret s
+    /\ bech32_decode s = Some (hrp, ver :: conv, spec_norm spec) /\ decode hrp s = None.
+Proof. exact segwit_other_constant_refused. Qed.
+Print Assumptions C11_other_constant_refused.
+
+Theorem C11_bad_length_rejected : forall hrp s h ver data spec prog,
+  bech32_decode s = Some (h, ver :: data, spec) -> convertbits data 5 8 false = Some prog ->
+  ((length prog < 2)%nat \/ (40 < length prog)%nat
+   \/ (ver = 0 /\ length prog <> 20%nat /\ length prog <> 32%nat)) ->
+  decode hrp s = None.
+Proof. exact bad_length_rejected. Qed.
+Print Assumptions C11_bad_length_rejected.
+
+Theorem C11_bad_padding_rejected : forall hrp s h ver data spec,
+  bech32_decode s = Some (h, ver :: data, spec) -> convertbits data 5 8 false = None -> decode hrp s = None.
+Proof. exact bad_padding_rejected. Qed.
+Print Assumptions C11_bad_padding_rejected.
+
+Theorem C11_too_long_rejected : forall s max_length, max_length < Z.of_nat (length s) ->
+  bech32_decode_max s max_length = None.
+Proof. exact too_long_rejected. Qed.
+Print Assumptions C11_too_long_rejected.
+
+(* ================================ error detection ========================================================== *)
+(* the checksum register is GF(2)-affine: the xor of two runs is the run of the xor *)
+Theorem C11_polymod_affine : forall d d' a b, length d = length d' ->
+  Z.lxor (pm_from a d) (pm_from b d') = pm_from (Z.lxor a b) (zipxor d d').
+Proof. exact pm_from_lxor. Qed.
+Print Assumptions C11_polymod_affine.
+
+(* one register step with a zero symbol is injective on 30-bit states *)
+Theorem C11_shift_injective : forall a b, small a -> small b -> lstep a = lstep b -> a = b.
+Proof. exact lstep_inj. Qed.
+Print Assumptions C11_shift_injective.
+
+(* the finite statement, decided in the kernel by the meet-in-the-middle sweep (vm_compute) *)
+Theorem C11_syndrome_sweep : forall a x u v, In a vals31 -> In x Z0 -> In u Z0 -> In v Z0 ->
+  Z.lxor (Z.lxor a x) (Z.lxor u v) <> 0.
+Proof. exact sweep_statement. Qed.
+Print Assumptions C11_syndrome_sweep.
+
+(* any two symbol strings of equal length <= 89 that differ in 1..4 positions never verify under the same constant *)
+Theorem C11_checksum_detects_4_errors : forall hrp d d' spec, syms5 d -> syms5 d' -> length d = length d' ->
+  (length d <= 89)%nat -> (1 <= hamming d d' <= 4)%nat ->
+  bech32_verify_checksum hrp d = Some spec -> bech32_verify_checksum hrp d' <> Some spec.
+Proof. exact verify_detects_4_errors. Qed.
+Print Assumptions C11_checksum_detects_4_errors.
+
+(* character strings: two accepted strings of equal length with the same human-readable part that differ (case
+   aside) in 1..4 characters carry DIFFERENT checksum constants *)
+Theorem C11_bech32_decode_detects_4_errors : forall s s' mx h d spec d' spec',
+  bech32_decode_max s mx = Some (h, d, spec) -> bech32_decode_max s' mx = Some (h, d', spec') ->
+  length s' = length s -> Z.of_nat (length s) <= 91 ->
+  (1 <= str_hamming (map lower_c s) (map lower_c s') <= 4)%nat -> spec' <> spec.
+Proof. exact bech32_decode_detects_4_errors. Qed.
+Print Assumptions C11_bech32_decode_detects_4_errors.
+
+(* segwit level.  The literal reading of the property ("any difference of up to four characters from a valid
+   string is rejected") is FALSE for BIP350 decoders, pycoin included: *)
+Definition C11_statement : Prop := segwit_detection_statement.
+Theorem C11_refuted_bech32m_flip : ~ C11_statement.
+Proof. exact segwit_detection_refuted. Qed.
+Print Assumptions C11_refuted_bech32m_flip.
+
+(* ... and the only exception is the one the witness shows: the witness version moves between 0 and non-zero
+   (exclusion predicate version_flip).  Errors anywhere in the string are covered: human-readable part,
+   separator, data and checksum characters. *)
+Theorem C11_partial : forall hrp s s' v prog,
+  decode hrp s = Some (v, prog) -> length s' = length s ->
+  (str_hamming s s' <= 4)%nat -> map lower_c s' <> map lower_c s ->
+  decode hrp s' = None \/ exists v' prog', decode hrp s' = Some (v', prog') /\ version_flip v v'.
+Proof. exact segwit_detects_4_errors. Qed.
+Print Assumptions C11_partial.
